@@ -129,6 +129,8 @@ func runC02(p *Prog, r *Report) {
 	c02Termination(p, r, fns)
 	r.Count("bounds sites proved", np)
 	r.Count("bounds sites unproved", nu)
+	r.Rule("D1-nullable-fields", "a pointer field that is compared with nil somewhere is tested before every dereference")
+	nullableFieldDerefs(p, r, "D1-nullable-fields", fns)
 	r.Rule("D1-nil-decode", "pointers that JSON/YAML decoding may leave nil are tested before they are dereferenced")
 	inScope := map[*ssa.Function]bool{}
 	for _, f := range fns {
